@@ -409,6 +409,16 @@ func (h *hintMgr) trydump(chunkID int, dumplast bool) (silence int64) {
 	return
 }
 
+// trydumpExclusive is trydump for callers outside the periodic dumper (GC, the
+// write path of an old chunk, startup): the dumper holds dumpLock for a whole
+// pass, and two dumps of one split must never overlap (the second one finds the
+// buffer already released).
+func (h *hintMgr) trydumpExclusive(chunkID int, dumplast bool) (silence int64) {
+	h.dumpLock.Lock()
+	defer h.dumpLock.Unlock()
+	return h.trydump(chunkID, dumplast)
+}
+
 func (h *hintMgr) close() {
 	// exclude the periodic hint dumper: two dumps of one split make the second
 	// one dereference the already released buffer
@@ -544,7 +554,7 @@ func (h *hintMgr) setItem(it *HintItem, chunkID int, recSize uint32) (rotated bo
 			default:
 			}
 		} else {
-			h.trydump(chunkID, false)
+			h.trydumpExclusive(chunkID, false)
 		}
 	}
 	if chunkID > h.maxChunkID {
@@ -722,6 +732,11 @@ func (hm *hintMgr) loadHintsByChunk(chunkID int) (datasize uint32) {
 }
 
 func (h *hintMgr) ClearChunk(chunkID int) {
+	// not while the periodic dumper works on the chunk that is being replaced:
+	// it would unlock the new chunk object instead of the one it locked, and
+	// write a stale hint file after the removal below
+	h.dumpLock.Lock()
+	defer h.dumpLock.Unlock()
 	h.chunks[chunkID] = newHintChunk(chunkID)
 	h.RemoveHintfilesByChunk(chunkID)
 }
